@@ -16,6 +16,13 @@ with and without CPUSUPPORT_X86_AESNI:
      (independent CTR model), bignum images of x, x+k*2^256, x+2^258, r,
      r+2^256, (x+2^258)-(r+2^256), and the secret text of failing key files.
      "Secret bytes absent", not "block all zero".
+ (c) fault enumeration of the DH error paths: for each (x, r, peer) triple the
+     driver counts the N allocations OpenSSL makes during crypto_dh_generate_pub
+     / crypto_dh_compute / crypto_dh_generate (after a warm-up, so that
+     per-process allocations are not counted) and then repeats the operation
+     N times with the k-th OpenSSL allocation refused, k = 1..N, the scan of
+     (b) active: the call must return -1 (or 0 when OpenSSL copes) without
+     crashing and no block released may hold an image of x, r or their sums.
 Self-checks on every case: the live AES key / stream object DOES contain the
 patterns just before it is freed, and an unwiped control block freed by the
 driver (BN_bin2bn + BN_free for DH) IS reported by the hook.
@@ -288,6 +295,40 @@ def gen_dh(rnd, n, add):
             xk is not None, pnames=names)
 
 
+def peer_value(rnd):
+    c = rnd.random()
+    if c < 0.5:
+        return pow(2, rnd.getrandbits(256) + (1 << 258), P14)
+    if c < 0.9:
+        return rnd.getrandbits(2048)
+    return rnd.choice([2, P14 - 1, P14 + 1, 1])
+
+
+FAULT_OPS = 'GCCGCD'
+
+
+def gen_dhf(rnd, n, shard, add):
+    """Fault enumeration cases: the driver refuses every OpenSSL allocation of
+    the operation in turn.  The entropy queue never fails here."""
+    for i in range(n):
+        op = FAULT_OPS[(shard + i) % len(FAULT_OPS)]
+        x = special256(rnd)
+        r = special256(rnd)
+        xb, rb = x.to_bytes(32, 'big'), r.to_bytes(32, 'big')
+        names, imgs = dh_patterns(x, r)
+        ps = ','.join(b.hex() for b in imgs) if imgs else '-'
+        if op == 'G':
+            line = 'F G %s %s %s' % (xb.hex(), rb.hex(), ps)
+        elif op == 'C':
+            pub = peer_value(rnd)
+            line = 'F C %s %s %s %s' % (pub.to_bytes(256, 'big').hex(), xb.hex(), rb.hex(), ps)
+        else:
+            line = 'F D %s,%s %s' % (xb.hex(), rb.hex(), ps)
+        add('dhf', 'dh-fault-' + op, line, '0',
+            sig('F', op, x.bit_length() // 32, r.bit_length() // 32), True,
+            pnames=names, op=op, xbits=x.bit_length(), rbits=r.bit_length())
+
+
 B64 = 'ABCDEFGHIJKLMNOPQRSTUVWXYZabcdefghijklmnopqrstuvwxyz0123456789+/'
 
 
@@ -368,6 +409,7 @@ SIZES = {
     'aes': (1800, 100000),
     'ctr': (1800, 80000),
     'dh': (1500, 75000),
+    'dhf': (48, 2400),         # each one is ~45-70 faulted runs of the operation
     'aws': (1800, 75000),
 }
 
@@ -391,6 +433,7 @@ def gen_cases(seed, tier, shard, nshards):
     gen_aes(rnd, per('aes'), add)
     gen_ctr(rnd, per('ctr'), tier, add)
     gen_dh(rnd, per('dh'), add)
+    gen_dhf(rnd, per('dhf'), shard, add)
     gen_aws(rnd, per('aws'), add)
     return cases
 
@@ -485,6 +528,38 @@ def judge(c, ans):
         st('dh.entropy_calls', int(d.get('ncalls', 0)))
         if wins == 0 or frees == 0:
             c['nt'] = False
+    elif g == 'dhf':
+        op = meta['op']
+        try:
+            n, n2, runs = int(d['n']), int(d['n2']), int(d['runs'])
+            fired, notreached = int(d['fired']), int(d['notreached'])
+            failret, absorbed = int(d['failret']), int(d['absorbed'])
+            absdiff, badret = int(d['absdiff']), int(d['badret'])
+        except (KeyError, ValueError):
+            st('harness.bad_answer')
+            c['nt'] = False
+            return None
+        if d.get('ret') != c['expect']:
+            st('harness.dhf_unexpected_ret')
+        if badret:
+            st('harness.dhf_return_value_not_0_or_-1', badret)
+        if n == 0 or runs != n:
+            st('harness.dhf_no_allocations_counted')
+        pre = 'dhf.%s.' % op
+        st(pre + 'cases')
+        st(pre + 'openssl_allocations_counted', n)
+        st(pre + 'fault_runs', runs)
+        st(pre + 'fault_points_fired', fired)
+        st(pre + 'fault_not_reached', notreached)
+        st(pre + 'returned_-1', failret)
+        st(pre + 'absorbed_returned_0', absorbed)
+        if absdiff:
+            st(pre + 'absorbed_but_output_differs', absdiff)
+        if n2 != n:
+            st(pre + 'count_differs_in_second_clean_run')
+        if wins == 0 or frees == 0 or fired == 0:
+            c['nt'] = False
+        c['sig'] = sig('F', op, n, meta['xbits'] // 32, meta['rbits'] // 32)
     elif g == 'aws':
         if d.get('ret') != c['expect']:
             st('harness.aws_unexpected_ret')
@@ -507,10 +582,21 @@ def judge(c, ans):
                 pass
         kcls = {'text': 'aws-secret', 'dh': 'dh-secret'}.get(cls, cls)
         bb = b if g in ('aes', 'ctr') else b.split('-')[0]
+        where = ''
+        if g == 'dhf':
+            hf = int(d.get('hfault', 0))
+            if hf:
+                # first leak seen on an error path (an OpenSSL allocation refused)
+                kcls += '-errpath'
+                where = (' in the run with OpenSSL allocation #%d of %s refused (returned on the error path); '
+                         '%s of the %s fault runs freed secret bytes, fault indices %s..%s'
+                         % (hf, d.get('n'), d.get('fruns'), d.get('runs'), d.get('fkfirst'), d.get('fklast')))
+            else:
+                where = ' in a run without faults'
         return ('wipe:free-leak:%s:%s' % (kcls, bb),
-                'build %s, %s: %d freed block(s) still held secret bytes; first: block of %s '
+                'build %s, %s: %d freed block(s) still held secret bytes; first%s: block of %s '
                 'bytes, offset %s: %s bytes equal to pattern #%s (%s) from its offset %s'
-                % (b, c['kind'], hits, d.get('hblk'), d.get('hboff'), d.get('hlen'),
+                % (b, c['kind'], hits, where, d.get('hblk'), d.get('hboff'), d.get('hlen'),
                    d.get('hpat'), what, d.get('hpoff')))
     return None
 
@@ -574,6 +660,9 @@ REQUIRED = {
              'ctx.finalised.hmac-sha256', 'ctx.finalised.hmac-sha1',
              'ctx.finalised.hmac-md5', 'ctx.heap', 'ctx.stack',
              'dh.frees_scanned', 'dh.positive_control_hits',
+             'dhf.frees_scanned', 'dhf.positive_control_hits',
+             'dhf.G.fault_points_fired', 'dhf.C.fault_points_fired',
+             'dhf.G.returned_-1', 'dhf.C.returned_-1',
              'aws.failed_after_secret_read', 'aws.positive_control_hits'],
     'aes': ['aes.frees_scanned', 'aes.positive_control_hits',
             'aes.cases_secret_present_before_free', 'ctr.frees_scanned',
